@@ -311,6 +311,7 @@ class Body:
         cand = {}
         moved = {}
         bad = set()
+        zero_other = False      # the return place is written by something other than a moved result, an Ok/Err value or the residual of a `?`
         for bi in self.reachable_blocks():
             bb = self.blocks[bi]
             for st in bb["stmts"]:
@@ -322,9 +323,12 @@ class Body:
                         moved[st["pl"]["l"]] = rv["ops"][0]["pl"]["l"]      # the result place handed on to the `?`
                     else:
                         bad.add(st["pl"]["l"])
+                        zero_other = zero_other or st["pl"]["l"] == 0
             t = bb["term"]
             if t["k"] == "call" and not t["dest"]["p"]:
                 bad.add(t["dest"]["l"])
+                if t["dest"]["l"] == 0 and not t.get("callee", "").endswith("FromResidual::from_residual"):
+                    zero_other = True
         residual_returned = any(self.blocks[bi]["term"]["k"] == "call" and self.blocks[bi]["term"].get("callee", "").endswith("FromResidual::from_residual")
                                 and self.blocks[bi]["term"]["dest"]["l"] == 0 and not self.blocks[bi]["term"]["dest"]["p"] for bi in self.reachable_blocks())
         if residual_returned:
@@ -337,6 +341,9 @@ class Body:
                     if l in cand:
                         cand[l] += 1
             res |= {l for l, n in cand.items() if n == 1 and l not in bad}
+        # ... or is handed back as it is: `_0 = move r` (the expanded helper is the function's tail call)
+        if 0 in moved and moved[0] in cand and moved[0] not in bad and not zero_other:
+            res.add(moved[0])
         self._errp = res
         return res
 
@@ -511,6 +518,41 @@ class Body:
         if self._defs is not None:
             return self._defs
         d = defaultdict(list)
+        # pointers that are `&mut L.q` of a local L and nothing else: a store through one of them is a store into L (a `&mut self` helper expanded into its caller
+        # writes the caller's struct local this way)
+        ptr_defs = defaultdict(list)
+        for bi, bb in enumerate(self.blocks):
+            if bb.get("cleanup"):
+                continue
+            for st in bb["stmts"]:
+                if st["k"] == "assign" and not st["pl"]["p"]:
+                    ptr_defs[st["pl"]["l"]].append(st["rv"])
+            t = bb["term"]
+            if t["k"] == "call" and not t["dest"]["p"]:
+                ptr_defs[t["dest"]["l"]].append(None)
+        ptr_of = {}
+        for l_, rvs in ptr_defs.items():
+            if len(rvs) == 1 and rvs[0] is not None and rvs[0].get("k") == "ref" and rvs[0].get("bk") == "mut" and not any(q[0] == "deref" for q in rvs[0]["pl"]["p"]) \
+                    and l_ > self.argc:
+                ptr_of[l_] = rvs[0]["pl"]
+        # further levels: `_b = &mut (*_a)` (a reborrow made for a call), `_c = move _b` (the argument of an expanded helper)
+        for _round in range(4):
+            grown = False
+            for l_, rvs in ptr_defs.items():
+                if l_ in ptr_of or len(rvs) != 1 or rvs[0] is None or l_ <= self.argc:
+                    continue
+                rv_ = rvs[0]
+                if rv_.get("k") == "ref" and rv_.get("bk") == "mut":
+                    pl_ = rv_["pl"]
+                    if pl_["p"] and pl_["p"][0][0] == "deref" and pl_["l"] in ptr_of and not any(q[0] == "deref" for q in pl_["p"][1:]):
+                        base = ptr_of[pl_["l"]]
+                        ptr_of[l_] = {"l": base["l"], "p": list(base["p"]) + list(pl_["p"][1:])}
+                        grown = True
+                elif rv_.get("k") == "use" and rv_["ops"][0].get("k") in ("move", "copy") and not rv_["ops"][0]["pl"]["p"] and rv_["ops"][0]["pl"]["l"] in ptr_of:
+                    ptr_of[l_] = ptr_of[rv_["ops"][0]["pl"]["l"]]
+                    grown = True
+            if not grown:
+                break
         for bi, bb in enumerate(self.blocks):
             if bb.get("cleanup"):
                 continue
@@ -521,6 +563,9 @@ class Body:
                         d[pl["l"]].append(("assign", bi, si, st["rv"]))
                     elif pl["p"][0][0] != "deref":
                         d[pl["l"]].append(("partial", bi, si, pl, st["rv"]))
+                    elif pl["l"] in ptr_of and len(pl["p"]) > 1:
+                        base = ptr_of[pl["l"]]
+                        d[base["l"]].append(("partial", bi, si, {"l": base["l"], "p": list(base["p"]) + list(pl["p"][1:])}, st["rv"]))
                 elif st["k"] == "setdiscr":
                     pl = st["pl"]
                     d[pl["l"]].append(("partial", bi, si, pl, None))
@@ -531,6 +576,9 @@ class Body:
                     d[pl["l"]].append(("call", bi, t))
                 elif pl["p"][0][0] != "deref":
                     d[pl["l"]].append(("partial", bi, -1, pl, None))
+                elif pl["l"] in ptr_of and len(pl["p"]) > 1:
+                    base = ptr_of[pl["l"]]
+                    d[base["l"]].append(("partial", bi, -1, {"l": base["l"], "p": list(base["p"]) + list(pl["p"][1:])}, None))
         self._defs = d
         return d
 
@@ -663,6 +711,14 @@ class Body:
                             and not isinstance(p[2], int) and p[2] in full[0][3].get("fields", []):
                         t = self.term_operand(full[0][3]["ops"][full[0][3]["fields"].index(p[2])])
                         continue
+                    # ... or that is a moved value (`let mut timer = self;`) of which only OTHER fields are written afterwards: this field is still the moved value's
+                    if len(full) == 1 and full[0][0] == "assign" and full[0][3]["k"] == "use" and part \
+                            and not any(d[3]["p"] and d[3]["p"][0][0] == "field" and d[3]["p"][0][2] == p[2] for d in part) \
+                            and all(d[3]["p"] and d[3]["p"][0][0] == "field" for d in part):
+                        src_ = self.term_rvalue(full[0][3], (full[0][1], full[0][2]))
+                        if isinstance(src_, tuple) and len(src_) == 2 and src_[0] == "param":
+                            t = ("field", src_, p[2])
+                            continue
                 # field of an aggregate whose construction we know
                 if t[0] == "agg" and t[1] in ("tuple", "closure") and p[1] < len(t[3]):
                     t = t[3][p[1]]
